@@ -100,7 +100,9 @@ def record_and_validate(ev, bins, executions, steps, work):
     nev, ops = 0, {}
     for r in res:
         nev += r["matched"]
-        if not r["accepted"]:
+        if not r["accepted"] and r.get("truncated"):
+            unknown.append({"kind": "trace_truncated", "part": "traces", "file": r["file"], "events_before_the_cut": r["matched"]})
+        elif not r["accepted"]:
             # a rejection is reported only if a second run rejects at the same line
             r2 = vf.validate_trace("Trace_Zigzag", "Trace_Zigzag.cfg", r["file"], tag="Trace_Zigzag-%d-again" % os.getpid(),
                                    extra_env=env)
